@@ -557,6 +557,7 @@ func (e *Engine) newObject(st *State, t types.Type) *Term {
 	if typeName(t) == "math/big.Int" {
 		bigSet(st, id, IntC(0))
 	}
+
 	return id
 }
 
@@ -1079,10 +1080,7 @@ func (e *Engine) stringBinOp(st *State, x *ssa.BinOp, a, b *Term) Val {
 		if bok && bs == "" {
 			return Val{a}
 		}
-		r := App("strcat", SInt, a, b)
-		e.fact(st, Eq(strLen(r), Add(strLen(a), strLen(b))))
-		e.fact(st, Le(IntC(0), r))
-		return Val{r}
+		return Val{e.strcat(st, a, b)}
 	case token.LSS, token.LEQ, token.GTR, token.GEQ:
 		if aok && bok {
 			var r bool
@@ -1112,6 +1110,49 @@ func (e *Engine) stringBinOp(st *State, x *ssa.BinOp, a, b *Term) Val {
 	}
 	unsupported("string op %s", x.Op)
 	return nil
+}
+
+// strcat builds a concatenation with its length, prefix and suffix facts.
+func (e *Engine) strcat(st *State, a, b *Term) *Term {
+	as, aok := strOf(a)
+	bs, bok := strOf(b)
+	if aok && bok {
+		return internStr(as + bs)
+	}
+	if aok && as == "" {
+		return b
+	}
+	if bok && bs == "" {
+		return a
+	}
+	r := App("strcat", SInt, a, b)
+	e.fact(st, Eq(strLen(r), Add(strLen(a), strLen(b))))
+	e.fact(st, Le(IntC(0), r))
+	e.fact(st, Eq(App("substr", SInt, r, IntC(0), strLen(a)), a))
+	e.fact(st, Eq(App("substr", SInt, r, strLen(a), strLen(r)), b))
+	// bytes of the concatenation
+	byteOf := func(s, i *Term) *Term { return strByte(s, i) }
+	for _, part := range []struct {
+		s, off *Term
+	}{{a, IntC(0)}, {b, strLen(a)}} {
+		if v, ok := strOf(part.s); ok && len(v) <= 16 {
+			for k := 0; k < len(v); k++ {
+				e.fact(st, Eq(byteOf(r, Add(part.off, IntC(int64(k)))), IntC(int64(v[k]))))
+			}
+		} else {
+			bv := BVar("j", SInt)
+			e.fact(st, Forall([]*Term{bv}, Implies(And(Le(part.off, bv), Lt(bv, Add(part.off, strLen(part.s)))),
+				Eq(Select(App("strbytes", ArrSort(SInt), r), bv), Select(App("strbytes", ArrSort(SInt), part.s), Sub(bv, part.off))))))
+		}
+	}
+	// Trim(c + x + c, c) == x when the one-character literal c does not occur in x
+	if cs, ok := strOf(b); ok && len(cs) == 1 && a.Op == "app" && a.Name == "strcat" && a.Args[0] == b {
+		x := a.Args[1]
+		bv := BVar("i", SInt)
+		tr := App(smtName("strings.Trim"), SInt, r, b)
+		e.fact(st, Implies(Forall([]*Term{bv}, Implies(And(Le(IntC(0), bv), Lt(bv, strLen(x))), Ne(Select(App("strbytes", ArrSort(SInt), x), bv), IntC(int64(cs[0]))))), Eq(tr, x)))
+	}
+	return r
 }
 
 func strByte(s, i *Term) *Term {
@@ -1263,6 +1304,9 @@ func (e *Engine) substr(st *State, s, lo, hi *Term) *Term {
 	if lo.IsConst() && lo.Int.Sign() == 0 && hi == strLen(s) {
 		return s
 	}
+	if lo == hi {
+		return internStr("")
+	}
 	r := App("substr", SInt, s, lo, hi)
 	e.fact(st, Eq(strLen(r), Sub(hi, lo)))
 	e.fact(st, Le(IntC(0), r))
@@ -1365,7 +1409,10 @@ func (e *Engine) doRange(st *State, fr *Frame, x *ssa.Range) Val {
 	case *types.Basic:
 		s, ok := strOf(v[0])
 		if !ok {
-			unsupported("range over symbolic string in %s (needs model)", fr.fn)
+			// symbolic string: the iterator is a byte position; runes are read through the
+			// uninterpreted decoding functions runeat/runewidth (see doNext)
+			st.iters[id] = &iterState{kind: "strsym", sref: v[0], posT: IntC(0)}
+			break
 		}
 		st.iters[id] = &iterState{kind: "string", str: s}
 	case *types.Map:
@@ -1401,6 +1448,31 @@ func (e *Engine) doNext(st *State, fr *Frame, x *ssa.Next) Val {
 		r, w := decodeRune(it.str[it.pos:])
 		out := Val{tTrue, IntC(int64(it.pos)), IntC(int64(r))}
 		it.pos += w
+		return out
+	case "strsym":
+		pos := it.posT
+		more := st.norm(Lt(pos, strLen(it.sref)))
+		r := App("runeat", SInt, it.sref, pos)
+		w := App("runewidth", SInt, it.sref, pos)
+		b := strByte(it.sref, pos)
+		e.fact(st, And(Le(IntC(0), r), Le(r, IntC(0x10FFFF)), Le(IntC(1), w), Le(w, IntC(4))))
+		e.fact(st, Implies(more, Le(Add(pos, w), strLen(it.sref))))
+		e.fact(st, And(Le(IntC(0), b), Le(b, IntC(255))))
+		// ASCII bytes decode to themselves with width 1, and only they decode to ASCII runes
+		e.fact(st, Implies(Lt(b, IntC(128)), And(Eq(r, b), Eq(w, IntC(1)))))
+		e.fact(st, Implies(Lt(r, IntC(128)), And(Eq(r, b), Eq(w, IntC(1)))))
+		// consuming one rune extends the consumed prefix by that rune's text
+		e.fact(st, Implies(more, Eq(App("strcat", SInt, App("substr", SInt, it.sref, IntC(0), pos), App("runestr", SInt, r)),
+			App("substr", SInt, it.sref, IntC(0), Add(pos, w)))))
+		e.fact(st, Implies(Not(more), Eq(pos, strLen(it.sref))))
+		it.posT = Add(pos, w)
+		out := Val{more}
+		if bt, isB := tup.At(1).Type().(*types.Basic); !isB || bt.Kind() != types.Invalid {
+			out = append(out, pos)
+		}
+		if bt, isB := tup.At(2).Type().(*types.Basic); !isB || bt.Kind() != types.Invalid {
+			out = append(out, r)
+		}
 		return out
 	case "mapc":
 		kz := zeroVal(tup.At(1).Type())
